@@ -104,7 +104,7 @@ def run_c14(tier, seed):
                 tree = abs_for_tlc(sch)
                 tree.setdefault("services", [])
                 tree.setdefault("devices", [])
-                gate_traces.append({"id": tid, "gen": gen, "tree": tree, "fs0": fs_json(obs["fs0"]), "fs1": fs_json(obs["fs1"]),
+                gate_traces.append({"id": tid, "gen": gen, "registered": [gen], "tree": tree, "fs0": fs_json(obs["fs0"]), "fs1": fs_json(obs["fs1"]),
                                     "events": obs["events"], "ret": obs["ret"], "files": obs["files"]})
                 meta[tid] = (sch, label, gen, ds, obs)
                 if gen == "can_c":
